@@ -404,6 +404,11 @@ pub fn run_pair(w: &mut Out, p: &Pair, rtm: &tokio::runtime::Runtime, cli: Optio
         let (sp, dp) = (dir.join("src"), dir.join("dst"));
         std::fs::write(&sp, &p.src).ok();
         std::fs::write(&dp, &p.basis).ok();
+        // what a run killed between staging and rename leaves behind: the staging file, here longer than the new output
+        // (seed C01-K: staged with create-without-truncate, the stale tail was renamed into place behind the new bytes)
+        for stale in ["dst.copia.tmp", "dst.copia-tmp", ".dst.copia.tmp"] {
+            std::fs::write(dir.join(stale), vec![0xA5u8; p.src.len() + 4096]).ok();
+        }
         let (spc, dpc, bs_) = (sp.clone(), dp.clone(), p.bs);
         let r = crate::util::guarded_timeout(30, move || rt().block_on(AsyncCopiaSync::with_block_size(bs_).sync_files(&spc, &dpc)));
         w.count("sync-files");
